@@ -65,7 +65,7 @@ Inductive snap_result :=
 
 Definition snapshot_git_object (bs0 : branches) (ignore_unresolved : bool) : snap_result :=
   match unresolved bs0, ignore_unresolved with
-  | _ :: _ as u, false => SnapUnresolved u
+  | (_ :: _) as u, false => SnapUnresolved u
   | _, _ => SnapOk (from_parts (bs "snapshot") (snap_parts bs0))
   end.
 
